@@ -3,9 +3,9 @@ import RrModel.Go.Strconv
 import RrModel.Go.Header
 /-
   Range handling of the caching handler, written branch for branch from
-    server/server.go   getRange (958-1008), requestRange.start/end/size/contentRangeValue (913-956),
-                       setRangedHeaders (624-637), sendBody's window (639-675),
-                       the Found branch (224-259) and the writer branch (342-351, 718-773)
+    server/server.go   getRange (972-1022), requestRange.start/end/size/contentRangeValue (919-970),
+                       setRangedHeaders (630-647), sendBody's window (649-685),
+                       the Found branch (224-259) and the writer branch (342-351, 728-783)
     caching/caching.go contentLengthFromRange (858-870), cachingResponseWriter.WriteHeader 206→200 (636-645)
   All arithmetic is Go's `int64`: exact `Int` followed by `wrap64` after every operation that can leave
   the range (two's-complement wrap-around, which is what the compiled code does).
@@ -22,15 +22,18 @@ structure ReqRange where
   e : Option Int
   deriving DecidableEq, Repr
 
-/-- `(*requestRange).start` (server.go:913-923) -/
+/-- `(*requestRange).start` (server.go:924-939); the suffix form is clamped at the first byte:
+    `start := cl + *rr.e; if start < 0 { return 0 }; return start` (fix of C15-a) -/
 def ReqRange.start (rr : ReqRange) (cl : Int) : Int :=
   match rr.s, rr.e with
   | some s, some _ => s
-  | none, some e => wrap64 (cl + e)
+  | none, some e =>
+    let start := wrap64 (cl + e)
+    if start < 0 then 0 else start
   | some s, none => s
   | none, none => 0
 
-/-- `(*requestRange).end` (server.go:925-935) -/
+/-- `(*requestRange).end` (server.go:941-951) -/
 def ReqRange.end (rr : ReqRange) (cl : Int) : Int :=
   match rr.s, rr.e with
   | some _, some e => e
@@ -38,14 +41,12 @@ def ReqRange.end (rr : ReqRange) (cl : Int) : Int :=
   | some _, none => wrap64 (cl - 1)
   | none, none => wrap64 (cl - 1)
 
-/-- `(*requestRange).size` (server.go:937-952); the `*rr.s == 0` special case computes the same value -/
+/-- `(*requestRange).size` (server.go:953-966); the `*rr.s == 0` special case computes the same value;
+    the suffix form is `cl - rr.start(cl)` (fix of C15-a) -/
 def ReqRange.size (rr : ReqRange) (cl : Int) : Int :=
   match rr.s, rr.e with
   | some s, some e => wrap64 (wrap64 (e - s) + 1)
-  | none, some e =>
-    let end_ := wrap64 (cl - 1)
-    let start := wrap64 (wrap64 (cl + e) - 1)
-    wrap64 (end_ - start)
+  | none, some _ => wrap64 (cl - rr.start cl)
   | some s, none => wrap64 (cl - s)
   | none, none => cl
 
@@ -104,8 +105,15 @@ def exceeds (x : Option Int) (lim : Int) : Bool :=
   | some v => decide (v > lim)
   | none => false
 
-/-- `setRangedHeaders` (server.go:624-637): the status, and the values given to
-    `h.Set("content-length", …)` and `h.Set("content-range", …)` when it gets that far -/
+/-- `rr.s == nil && rr.e != nil && *rr.e == 0`: the suffix form of length zero -/
+def emptySuffix (r : ReqRange) : Bool :=
+  match r.s, r.e with
+  | none, some e => decide (e = 0)
+  | _, _ => false
+
+/-- `setRangedHeaders` (server.go:630-647): the status, and the values given to
+    `h.Set("content-length", …)` and `h.Set("content-range", …)` when it gets that far; a suffix of
+    length zero is unsatisfiable like a range beyond the resource (fix of C15-b) -/
 def setRangedHeaders (rr : Option ReqRange) (contentLength : Int) (statusCode : Nat) :
     Nat × Option (Bytes × Bytes) :=
   match rr with
@@ -113,9 +121,10 @@ def setRangedHeaders (rr : Option ReqRange) (contentLength : Int) (statusCode : 
   | some r =>
     if statusCode ≠ 200 ∨ contentLength ≤ 0 then (statusCode, none)
     else if exceeds r.s (wrap64 (contentLength - 1)) || exceeds r.e (wrap64 (contentLength - 1)) then (416, none)
+    else if emptySuffix r then (416, none)
     else (206, some (itoa (r.size contentLength), r.contentRangeValue contentLength))
 
-/-- what `sendBody` (server.go:639-675) copies to the client from a file with content `file`:
+/-- what `sendBody` (server.go:649-685) copies to the client from a file with content `file`:
     `fd.Seek(start, 0)` fails for a negative offset (nothing is sent); `io.LimitReader(fd, n)` yields
     nothing for `n ≤ 0`; reading stops at end of file. A parsed range is applied unconditionally. -/
 def sendBodyWindow (rr : Option ReqRange) (file : Bytes) : Bytes :=
